@@ -283,7 +283,7 @@ mod hooks {
 
     impl Sched {
         fn on_event(&self, tid: usize, ev: &Event) {
-            if std::thread::panicking() || self.abort.load(Ordering::Relaxed) {
+            if self.abort.load(Ordering::Relaxed) {
                 return;
             }
             let inner = unsafe { &mut *self.inner.get() };
@@ -334,7 +334,7 @@ pub fn probe_access() {
         return;
     }
     if let Some(s) = active() {
-        if std::thread::panicking() || s.abort.load(Ordering::Relaxed) {
+        if s.abort.load(Ordering::Relaxed) {
             return;
         }
         let inner = unsafe { &mut *s.inner.get() };
@@ -349,7 +349,7 @@ pub fn probe_read_access() {
         return;
     }
     if let Some(s) = active() {
-        if std::thread::panicking() || s.abort.load(Ordering::Relaxed) {
+        if s.abort.load(Ordering::Relaxed) {
             return;
         }
         let inner = unsafe { &mut *s.inner.get() };
@@ -455,6 +455,7 @@ impl Sched {
         loop {
             if self.abort.load(Ordering::Acquire) {
                 self.teardown_self();
+                return;
             }
             if self.turn.load(Ordering::Acquire) == me {
                 return;
@@ -468,12 +469,16 @@ impl Sched {
         }
     }
 
-    fn teardown_self(&self) -> ! {
+    /// leaves the scheduler: unwinds out of the crate with a private payload; a thread that is already unwinding
+    /// (a pull made by a destructor) cannot panic again and simply continues unscheduled
+    fn teardown_self(&self) {
         TID.with(|t| t.set(NOBODY));
-        std::panic::resume_unwind(Box::new(Teardown));
+        if !std::thread::panicking() {
+            std::panic::resume_unwind(Box::new(Teardown));
+        }
     }
 
-    fn abort_all(&self) -> ! {
+    fn abort_all(&self) {
         self.abort.store(true, Ordering::Release);
         for h in self.handles.iter() {
             if let Some(h) = h.get() {
@@ -525,11 +530,9 @@ impl Sched {
     }
 
     fn point(&self, tid: usize, kind: PointKind, addr: usize) {
-        if std::thread::panicking() {
-            return;
-        }
         if self.abort.load(Ordering::Acquire) {
             self.teardown_self();
+            return;
         }
         let inner = unsafe { &mut *self.inner.get() };
         debug_assert_eq!(self.turn.load(Ordering::Relaxed), tid);
@@ -613,6 +616,7 @@ impl Sched {
                         live.iter().map(|&t| inner.last_addr[t]).collect::<Vec<_>>()
                     );
                     self.abort_all();
+                    return;
                 }
             }
         }
